@@ -1,0 +1,41 @@
+//go:build verif
+
+package proxy
+
+// Verification export hooks for property C21 (secure chat: client order kept, acknowledgements
+// conserved) — /verif/harness/cmd/c21. Thin package-internal constructor and one field reader.
+// Compiled only with `-tags verif`.
+
+import (
+	"net"
+
+	"go.minekube.com/gate/pkg/edition/java/netmc"
+	"go.minekube.com/gate/pkg/edition/java/profile"
+	"go.minekube.com/gate/pkg/edition/java/proto/packet"
+	"go.minekube.com/gate/pkg/util/permission"
+)
+
+// VerifC21NewClientPlayHandler returns the real client play session handler of a real
+// connectedPlayer on `client` (with its real chatQueue), connected to a backend whose connection
+// is `backend`.
+func VerifC21NewClientPlayHandler(p *Proxy, client, backend netmc.MinecraftConn, prof *profile.GameProfile,
+	permFunc permission.Func) netmc.SessionHandler {
+	player := newConnectedPlayer(client, prof, nil, packet.LoginHandshakeIntent, true, nil, &sessionHandlerDeps{
+		proxy:          p,
+		registrar:      p,
+		configProvider: p,
+		eventMgr:       p.event,
+		authenticator:  p.authenticator,
+		loginsQuota:    p.loginsQuota,
+	})
+	player.permFunc = permFunc
+	sc := newServerConnection(newRegisteredServer(NewServerInfo("verif", &net.TCPAddr{IP: net.IPv4(127, 0, 0, 1), Port: 25566})), nil, player)
+	sc.connection = backend
+	player.setConnectedServer(sc)
+	return newClientPlaySessionHandler(player)
+}
+
+// VerifC21DelayedAckCount reads ChatState.delayedAckCount of the handler's player.
+func VerifC21DelayedAckCount(h netmc.SessionHandler) int32 {
+	return h.(*clientPlaySessionHandler).player.chatQueue.chatState.delayedAckCount.Load()
+}
